@@ -6,7 +6,7 @@ The closure of the local function captures the binding of `f` itself, the functi
 not: the captured environments agree outside `f`, which the body never looks up.
 -/
 namespace DarkluaModel.Sem.Heap
-variable {N : NumOps} {Q : QRel} {cx : Cx} {β : CellRel}
+variable {N : NumOps} {Q : QRel} {cx : Cx} {β : CellRel N}
 
 theorem listSet_append_len {α : Type} (l : List α) (a b : α) : listSet (l ++ [a]) l.length b = l ++ [b] := by
   induction l with
@@ -30,17 +30,17 @@ theorem localFn_to_assign_sound (hq : QRefl cx Q) {D : List DName} {kind kind' :
   -- both sides: one fresh cell holding the closure, one fresh closure
   have h1 := hs.allocBoth (Val.fn σ.closures.length)
   have he1 : LocOK cx (extBoth β σ σ') D ((name, σ.cells.length) :: env.locals)
-      ((name, σ'.cells.length) :: env'.locals) := (he.loc.mono le_extBoth).cons _ hw extBoth_new
+      ((name, σ'.cells.length) :: env'.locals) := (he.loc.mono (le_extBoth hs)).cons _ hw extBoth_new
   have hclo : CRel Q cx (extBoth β σ σ') (⟨f, (name, σ.cells.length) :: env.locals, []⟩ : Closure N)
       ⟨f, env'.locals, []⟩ :=
     ⟨rfl, DName.ref name :: D, hq _ _ hf,
-      ((he.loc.mono le_extBoth).weaken (D' := DName.ref name :: D)
+      ((he.loc.mono (le_extBoth hs)).weaken (D' := DName.ref name :: D)
         ⟨fun x hx => List.mem_cons_of_mem _ hx, fun n hn => by
           cases hn with
           | tail _ h => exact h⟩).consLeft name _ List.mem_cons_self
         (fun hm => by cases hm with | tail _ h => exact hw h)⟩
   have h2 := h1.allocClosure hclo
-  refine RRel.mono (le_extBoth (σ := σ) (σ' := σ')) ?_
+  refine RRel.mono (le_extBoth hs) ?_
   refine RRel.ok (A := ACtlS cx D) ⟨he.va, he1⟩ ?_
   have key := h2.2
   simp only [State.allocClosure, State.allocCell, hs.closure_length] at key ⊢
